@@ -387,7 +387,7 @@ Proof.
   - unfold ctake. destruct (outq s); auto.
   - unfold deliver. destruct (closed s); [auto|]. destruct (lookup _ _); [|auto]. destruct last.
     + destruct (managed r).
-      * unfold release. cbn. destruct (_ <? _); [|auto]. destruct (on_frame _ _ _ _ _ _); auto.
+      * unfold release. cbn. destruct (_ <? _); destruct (on_frame _ _ _ _ _ _); auto.
       * destruct (on_frame _ _ _ _ _ _); auto.
     + destruct (on_frame _ _ _ _ _ _); auto.
   - auto.
